@@ -140,6 +140,24 @@ def gen(rnd: random.Random, opts: dict) -> Design:
                 trans = [bit() for _ in range(n)]
                 states = [mkstmts(b, pos + ((("fsm", sid), k),), depth, minidx, cdepth + 1) for k in range(n)]
                 D.fsms[sid] = n
+                if rnd.random() < opts.get("p_nested_fsm", 0.3):
+                    # forced layout: an FSM nested in the first state, and witnesses in a *later* outer state (declared after the nested FSM)
+                    sid2 = D.struct
+                    D.struct += 1
+                    tr2 = [bit(), bit()]
+                    inner = []
+                    for k2 in range(2):
+                        w = (D.wid, rnd.choice(["comb", "av"]), b, pos + ((("fsm", sid), 0), (("fsm", sid2), k2)))
+                        D.wid += 1
+                        D.wits.append(w)
+                        inner.append([("wit", w)])
+                    D.fsms[sid2] = 2
+                    states[0].append(("fsm", sid2, inner, tr2))
+                    for dom in ("av", "comb"):
+                        w = (D.wid, dom, b, pos + ((("fsm", sid), n - 1),))
+                        D.wid += 1
+                        D.wits.append(w)
+                        states[n - 1].append(("wit", w))
                 out.append(("fsm", sid, states, trans))
             elif r < p_call + p_struct + 0.12 and depth < opts.get("max_nesting", 2):
                 if rnd.random() < 0.5 or not [j for j in D.pending_methods if j >= minidx]:
@@ -196,6 +214,12 @@ def gen(rnd: random.Random, opts: dict) -> Design:
         D.sb.append((a, b2, rnd.random() < opts.get("p_rd", 0.4)))
     if rnd.random() < opts.get("p_mixed", 0.25):
         add_mixed_chain_pattern(D, rnd)
+        keys = list(D.bodies)
+    if rnd.random() < opts.get("p_triangle", 0.1):
+        add_priority_triangle_pattern(D, rnd)
+        keys = list(D.bodies)
+    if rnd.random() < opts.get("p_deepchain", 0.15):
+        add_deep_chain_pattern(D, rnd)
         keys = list(D.bodies)
     if rnd.random() < opts.get("p_vdiamond", 0.15):
         add_validated_diamond_pattern(D, rnd)
@@ -275,6 +299,78 @@ def add_validated_diamond_pattern(D, rnd):
     s1 = new_site(D, t, a_idx, pos=t.pos + ((("if", sid), 0),))
     s2 = new_site(D, t, a_idx, pos=t.pos + ((("if", sid), 1),))
     t.stmts.append(("if", sid, [cbit], [[("call", s1)]], [("call", s2)]))
+    return True
+
+
+def add_priority_triangle_pattern(D, rnd):
+    """Forced layout class: a prioritised conflict hi/lo where the high side has an additional conflict neighbour x (which is often idle):
+    the arbitration order must follow the declared priority, not the number of conflicts."""
+    first = D.nt + D.tnext
+    D.tnext += 3
+    keys = []
+    for k in range(3):
+        b = B("t", first + k)
+        b.pos = ((("body", "t", first + k), 0),)
+        D.nbits += 1
+        b.rdy = D.nbits - 1
+        D.bodies[b.key] = b
+        keys.append(b.key)
+        D.order.insert(rnd.randrange(len(D.order) + 1), b)
+    D.deford = {}
+    def pre(b):
+        D.deford[b.key] = len(D.deford)
+        for st in walk(b.stmts):
+            if st[0] == "body":
+                pre(st[1])
+    for b in D.order:
+        pre(b)
+    hi, lo, x = keys
+    if rnd.random() < 0.5:
+        D.confl.append((hi, lo, Priority.LEFT))
+    else:
+        D.confl.append((lo, hi, Priority.RIGHT))
+    D.confl.append((hi, x, Priority.UNDEFINED))
+    if rnd.random() < 0.5:
+        extra = [k for k in D.bodies if k[0] == "t" and k not in keys]
+        if extra:
+            D.confl.append((hi, rnd.choice(extra), Priority.UNDEFINED))
+    return True
+
+
+def add_deep_chain_pattern(D, rnd):
+    """Forced layout class: T -(conditional call)-> m1 -> m2 -> m3 (plain calls): when the condition at the top of the chain is false,
+    none of the methods below may run although T runs (the call enable must be propagated down the whole chain)."""
+    tops = [b for b in D.order if b.kind == "t"]
+    if not tops:
+        return False
+    t = rnd.choice(tops)
+    depth = rnd.randint(3, 4)
+    first = D.nm
+    D.nm += depth
+    for k in range(depth):
+        D.meth.append(dict(has_in=False, nonex=rnd.random() < 0.2, validate=None, combiner=None, single_caller=False))
+        b = B("m", first + k)
+        b.pos = ((("body", "m", first + k), 0),)
+        D.nbits += 1
+        b.rdy = D.nbits - 1
+        D.bodies[b.key] = b
+        D.order.append(b)
+        D.deford[b.key] = len(D.deford)
+    for k in range(depth - 1):
+        cb = D.bodies[("m", first + k)]
+        cb.stmts.append(("call", new_site(D, cb, first + k + 1)))
+    D.nbits += 1
+    cbit = D.nbits - 1
+    if rnd.random() < 0.5:
+        sid = D.struct
+        D.struct += 1
+        s0 = new_site(D, t, first, pos=t.pos + ((("if", sid), 0),))
+        t.stmts.append(("if", sid, [cbit], [[("call", s0)]], None))
+    else:
+        s0 = new_site(D, t, first)
+        s0.en = cbit
+        s0.pos = t.pos + ((("en", s0.sid), 0),)
+        t.stmts.append(("call", s0))
     return True
 
 
